@@ -76,8 +76,12 @@ def run_one(m, keep=False):
             shown = [k for k in fresh if any(e in k for e in m["expect"])] or fresh[:4]
             return m, "ok", "caught: %s" % shown, time.time() - t0
         else:
+            tol = [k for k in fresh if k in m.get("tolerated", [])]
+            fresh = [k for k in fresh if k not in tol]
             if fresh:
                 return m, "FALSE-ALARM", "fresh violations on a behaviour-preserving edit: %s" % fresh, time.time() - t0
+            if tol:
+                return m, "ok", "silent but for the documented limit(s) %s" % tol, time.time() - t0
             return m, "ok", "silent", time.time() - t0
     finally:
         if not keep:
